@@ -42,6 +42,10 @@ pub const POOLS: &[Pool] = &[
         res: &[
             r"a+", r"ab*", r"(ab)+", r"a|ab", r"[a-c]+", r"abc?", r"a*", r"b?", r"[ab]{2}", r"a{2,3}", r"(a|b)*c", r"(?:a|b)+",
             r"ab|abcd", r"a.c", r"[^ab]", r"a(?:b+)?", r"c(?:a{2})?", r"(?:ab{1,2})?c",
+            // capturing groups around one bare repetition, quantified (rendering must keep the group)
+            r"(a+)?b", r"(a{2})?c", r"((?:ab)+)?c", r"c(b*)?a", r"(b+)*a", r"(a?)+c",
+            // open-ended counted repetitions and partners that overlap them only at exactly n copies
+            r"a{2,}", r"aa", r"aa?", r"a{3,}", r"aaa", r"[ab]{2,}", r"[ab][ab]?", r"b{2,}c", r"bbc",
         ],
     },
     Pool {
@@ -57,6 +61,12 @@ pub const POOLS: &[Pool] = &[
             r"\d",
             r"[1-9][0-9]*",
             r"[0-9]+(\.[0-9]*)?",
+            r"([0-9]+)?\.[0-9]+",
+            r"[0-9]{2,}",
+            r"[0-9][0-9]?",
+            r"[0-9]{3,}",
+            r"[0-9]{1,3}",
+            r"(0+)?1",
         ],
     },
     Pool {
